@@ -76,3 +76,27 @@ Inductive mop :=
            | MArgFromStack i off b => VT [VZ 11; VZ (Z.of_nat i); VZ off; VZ b]
            | MRet => VT [VZ 12]
            end.
+
+(* ---- digest of a rendered value: correspondence cases compare one integer per case instead of a
+   large literal (parsing big list literals dominates the run time otherwise). The harness computes
+   the same polynomial hash over the implementation's value (tools/props/c40.py: pyhash). ---- *)
+Definition hmix (h x : Z) : Z := (h * 1000003 + x + 12345) mod 2305843009213693951.
+Fixpoint vhash (h : Z) (v : val) {struct v} : Z :=
+  let fix lh (h : Z) (l : list val) {struct l} : Z :=
+    match l with
+    | [] => hmix h 17
+    | x :: r => lh (vhash h x) r
+    end in
+  match v with
+  | VZ z => hmix (hmix h 1) z
+  | VB b => hmix (hmix h 2) (if b then 1 else 0)
+  | VS _ => hmix h 3
+  | VL l => lh (hmix h 4) l
+  | VT l => lh (hmix h 5) l
+  | VNone => hmix h 6
+  | VOk x => vhash (hmix h 7) x
+  | VDiag => hmix h 8
+  | VInternal => hmix h 9
+  | VFuel => hmix h 10
+  end.
+Definition digest {A} `{ToVal A} (a : A) : Z := vhash 7 (toval a).
